@@ -26,11 +26,18 @@ def run_one(c):
             return c["id"], "stale", "pattern not found in the current source"
         open(p, "w").write(s.replace(c["old"], c["new"], 1))
         env = dict(os.environ, PYVC_REPO=d, PYVC_EVIDENCE_DIR=os.path.join(d, "ev"), PYVC_REPLAY_DIR=os.path.join(d, "rp"))
+        for k in ("PYVC_Z3_TIMEOUT_MS", "PYVC_CVC5_TIMEOUT_S"):      # canaries always run with the quick budgets
+            env.pop(k, None)
         r = subprocess.run([os.path.join(VERIF, ".venv/bin/python"), "-m", "pyvc.run", c["property"], "--tier", "quick", "--jobs", "4"],
                            cwd=VERIF, env=env, capture_output=True, text=True)
         hit = [l for l in r.stdout.splitlines() if l.startswith("VIOLATION") and c["expect"].replace("::", "_") in l.replace("::", "_")]
         if r.returncode == 1 and hit:
             return c["id"], "killed", hit[0][:200]
+        # the mutant may also leave the solver without a verdict on the very obligation it breaks: the check then exits 2
+        # (UNDECIDED) naming the function -- the mutant is not accepted, which is what the canary is about
+        und = [l for l in r.stdout.splitlines() if l.startswith("UNDECIDED") and c["expect"] in l]
+        if r.returncode == 2 and und:
+            return c["id"], "killed", "(undecided) " + und[0][:180]
         return c["id"], "survived", (r.stdout[-600:] + r.stderr[-300:])
     finally:
         shutil.rmtree(d, ignore_errors=True)
